@@ -129,6 +129,10 @@ impl MintBuilder {
         if amount.0 == 0 {
             return Err(JsError::from_str("Mint cannot be zero."));
         }
+        // the ledger's mint field holds int64 quantities
+        if amount.0 > i64::MAX as i128 || amount.0 < i64::MIN as i128 {
+            return Err(JsError::from_str("Mint amount overflow"));
+        }
         let script_mint = self.mints.get(&mint_witness.script_hash());
         Self::validate_mint_witness(mint_witness, script_mint)?;
 
@@ -184,12 +188,12 @@ impl MintBuilder {
         Ok(())
     }
 
-    // an Int is a CBOR int: the accumulated amount must stay within -2^64..=2^64-1
+    // the accumulated amount must stay within the ledger's int64 range as well
     fn checked_mint_sum(current: i128, amount: i128) -> Result<i128, JsError> {
         let sum = current
             .checked_add(amount)
             .ok_or_else(|| JsError::from_str("Mint amount overflow"))?;
-        if sum > u64::MAX as i128 || sum < -(u64::MAX as i128) - 1 {
+        if sum > i64::MAX as i128 || sum < i64::MIN as i128 {
             return Err(JsError::from_str("Mint amount overflow"));
         }
         Ok(sum)
